@@ -148,6 +148,9 @@ type realSketch struct {
 	plain *ddsketch.DDSketch
 	exact *ddsketch.DDSketchWithExactSummaryStatistics
 	m     int // mapping token
+	// sumOverflowed: at some point since the last Clear the total of |value*weight| this sketch (or one it absorbed)
+	// held was beyond what a float64 sum can carry; its exact sum is then +-Inf/NaN for good and is not compared
+	sumOverflowed bool
 }
 
 func (r *realSketch) base() *ddsketch.DDSketch {
@@ -951,6 +954,46 @@ func (w *sketchWorld) checkRefusals(r *realSketch, p *SkObs) *skDiff {
 	return nil
 }
 
+// noteSumOverflow keeps realSketch.sumOverflowed: float64 cannot carry a total of |value*weight| near MaxFloat64, and once
+// a compensated sum has overflowed no later Reweight, merge or copy brings it back (only Clear does). The property asks
+// for an error of a few ulps of that total, which presupposes the total is representable.
+func (w *sketchWorld) noteSumOverflow(e *SkEvent, preds []SkObs) {
+	recv := e.S
+	two := false
+	switch e.Op {
+	case "Merge", "Copy", "EncDec", "DecodeNew", "Proto", "Concat", "ChangeMap":
+		recv, two = e.T, true
+	case "Read":
+		return
+	}
+	if recv < 1 || recv > len(w.sk) {
+		return
+	}
+	r := w.sk[recv-1]
+	switch {
+	case e.Op == "Clear":
+		r.sumOverflowed = false
+	case two && e.S >= 1 && e.S <= len(w.sk) && e.S != recv:
+		src := w.sk[e.S-1].sumOverflowed
+		if e.Op == "Copy" || e.Op == "DecodeNew" || e.Op == "ChangeMap" || e.Op == "Proto" {
+			r.sumOverflowed = src
+		} else {
+			r.sumOverflowed = r.sumOverflowed || src
+		}
+	}
+	p := &preds[recv-1]
+	conc := w.cfg.conc(p.M)
+	q := float64(w.cfg.Q)
+	abs := 0.0
+	for _, b := range p.Bag {
+		x, _ := tokenValue(conc, w.cfg.Keys, b[0])
+		abs += math.Abs(x) * float64(b[1]) / q
+	}
+	if !(abs < math.MaxFloat64/4) {
+		r.sumOverflowed = true
+	}
+}
+
 // C10
 func (w *sketchWorld) checkExactStats(r *realSketch, p *SkObs, answers []float64) *skDiff {
 	cfg := w.cfg
@@ -998,7 +1041,7 @@ func (w *sketchWorld) checkExactStats(r *realSketch, p *SkObs, answers []float64
 		absSum.Add(absSum, t.Abs(t))
 	}
 	// (sums whose terms approach MaxFloat64 overflow in float64 arithmetic: not compared)
-	if as, _ := absSum.Float64(); as < math.MaxFloat64/4 {
+	if as, _ := absSum.Float64(); as < math.MaxFloat64/4 && !r.sumOverflowed {
 		gs := ex.GetSum()
 		if math.IsNaN(gs) || math.IsInf(gs, 0) {
 			return &skDiff{"exact", fmt.Sprintf("exact sum is %v although the absorbed values are finite and far from overflow", gs), gs}
@@ -1099,6 +1142,9 @@ func replaySketch(beh []SkStep, cfg *SketchCfg) (mm *SkMismatch) {
 		}
 		if problem != "" {
 			return &SkMismatch{Step: step, Aspect: "call", What: problem, Tags: tags}
+		}
+		if ec == "" {
+			w.noteSumOverflow(cur, beh[i].Pred)
 		}
 		// error class
 		want := beh[i].Err
